@@ -16,7 +16,7 @@ use super::{
     TSetIdentifier, TStructIdentifier, TType, ThriftException, ZERO_COPY_THRESHOLD,
     error::ProtocolExceptionKind,
     new_protocol_exception,
-    rw_ext::{ReadExt, WriteExt},
+    rw_ext::{IOError, ReadExt, WriteExt},
     varint_ext::VarIntProcessor,
 };
 
@@ -1647,6 +1647,11 @@ impl TInputProtocol for TCompactInputProtocol<&mut Bytes> {
     #[inline]
     fn read_bytes(&mut self) -> Result<Bytes, ThriftException> {
         let size = self.read_varint::<u32>()?;
+        crate::assert_remaining!(
+            size as usize <= self.trans.len(),
+            "length {} exceeds remaining",
+            size as usize
+        );
         Ok(self.trans.split_to(size as usize))
     }
 
@@ -1657,6 +1662,7 @@ impl TInputProtocol for TCompactInputProtocol<&mut Bytes> {
                 std::slice::from_raw_parts(ptr, len)
             }))
         } else {
+            crate::assert_remaining!(len <= self.trans.len(), "length {} exceeds remaining", len);
             Ok(self.trans.split_to(len))
         }
     }
@@ -1677,6 +1683,11 @@ impl TInputProtocol for TCompactInputProtocol<&mut Bytes> {
     #[inline]
     fn read_faststr(&mut self) -> Result<FastStr, ThriftException> {
         let size = self.read_varint::<u32>()? as usize;
+        crate::assert_remaining!(
+            size <= self.trans.len(),
+            "length {} exceeds remaining",
+            size
+        );
         let bytes = self.trans.split_to(size);
         unsafe { Ok(FastStr::from_bytes_unchecked(bytes)) }
     }
@@ -1762,6 +1773,11 @@ impl TInputProtocol for TCompactInputProtocol<&mut Bytes> {
     fn read_bytes_vec(&mut self) -> Result<Vec<u8>, ThriftException> {
         let size = self.read_varint::<u32>()? as usize;
 
+        crate::assert_remaining!(
+            size <= self.trans.len(),
+            "length {} exceeds remaining",
+            size
+        );
         Ok(self.trans.split_to(size).into())
     }
 
